@@ -7,8 +7,52 @@
    not yet covered by a theorem are decided by the implementation <-> specification <->
    hardware differential run only (listed as unproved_forms in the evidence). *)
 From Coq Require Import ZArith Bool List.
-From AxV Require Import Bits Outcome Codes Iced State Rt Mem Trace Exec ExecP FrameTac FrameP ISA CodeSem IsaP.
-From AxG Require Import Flags Regs Operand Helpers Dispatch Frame.
+From AxV Require Import Bits Outcome Codes Iced State Rt Mem Trace Exec ExecP FrameTac FrameP ByteStore MemP RegFile RegsP ISA CodeSem IsaP OperandP RmP NoCrashP.
+From AxG Require Import Flags Regs Operand Helpers Dispatch Frame I_add I_sub I_cmp I_and I_xor I_div.
 Local Open Scope Z_scope.
 
 Print Assumptions cond_matches_sdm.
+
+(* Instruction-level "never crashes" theorems exist for the forms that have a complete refinement;
+   they hold in both build configurations (debug assertions on/off, overflow checks on/off), for
+   every register value, flag word and memory layout satisfying the state invariants.  For every
+   other form C19 is decided by the fuzzing / structured run in two build profiles (not a proof;
+   labelled as such in the evidence). *)
+
+(* memory accessors: Ok or Err, never a panic, for every address and length *)
+Theorem C19_memory_read : forall a n s, Inv (mem s) -> 0 <= n ->
+  (exists l, mem_read_bytes a n s = (Ok l, s)) \/ (exists e, mem_read_bytes a n s = (Err e, s)).
+Proof. exact read_never_panics. Qed.
+Theorem C19_memory_write : forall a d s, Inv (mem s) ->
+  (exists s', mem_write_bytes a d s = (Ok tt, s')) \/ (exists e, mem_write_bytes a d s = (Err e, s)).
+Proof. exact write_never_panics. Qed.
+
+(* reading any r/m64 operand *)
+Theorem C19_rm64_operand : forall c i s k, wf_regs s -> Inv (mem s) ->
+  0 <= k < i_op_count i -> rm64_shape i k -> no_crash (fst (read_rm64 c i k s)).
+Proof.
+  intros c i s k Hwf HI Hk Hs. pose proof (read_rm64_spec c i s k Hwf HI Hk Hs) as R.
+  destruct (read_op i k 64 s); [destruct R as [R _]|destruct R as [e R]]; rewrite R; exact I.
+Qed.
+
+(* DIV r/m64: every dividend, every divisor (zero included), register or memory, mapped or not *)
+Theorem C19_div_rm64 : forall c i s,
+  wf_regs s -> Inv (mem s) -> i_op_count i = 1 -> rm64_shape i 0 -> i_code i = C_Div_rm64 ->
+  no_crash (fst (instr_div_rm64 c i s)).
+Proof. exact div_rm64_no_crash. Qed.
+
+Theorem C19_alu64_regreg : forall c i s,
+  wf_regs s -> 0 <= rflags s < 2 ^ 63 -> i_op_count i = 2 ->
+  i_op_kind i 0 = OK_Register -> i_op_kind i 1 = OK_Register ->
+  is_gpr64 (i_op_register i 0) = true -> is_gpr64 (i_op_register i 1) = true ->
+  (i_code i = C_Add_rm64_r64 -> no_crash (fst (instr_add_rm64_r64 c i s))) /\
+  (i_code i = C_Sub_rm64_r64 -> no_crash (fst (instr_sub_rm64_r64 c i s))) /\
+  (i_code i = C_Cmp_rm64_r64 -> no_crash (fst (instr_cmp_rm64_r64 c i s))) /\
+  (i_code i = C_And_rm64_r64 -> no_crash (fst (instr_and_rm64_r64 c i s))) /\
+  (i_code i = C_Xor_rm64_r64 -> no_crash (fst (instr_xor_rm64_r64 c i s))).
+Proof. exact alu64_regreg_no_crash. Qed.
+
+Print Assumptions C19_memory_read.
+Print Assumptions C19_rm64_operand.
+Print Assumptions C19_div_rm64.
+Print Assumptions C19_alu64_regreg.
